@@ -258,19 +258,35 @@ class TypeEngine:
         if isinstance(node, ast.Lambda):
             return table
         bindings = _collect_local_bindings(node)
-        # two rounds so that chains  a = f(); b = a.x  resolve
-        for _round in range(2):
+        # rounds so that chains  a = f(); b = a.x  resolve: every round recomputes all
+        # bindings with the previous round's table visible, until nothing changes
+        base = dict(table)
+        for _round in range(5):
+            new = dict(base)
             for name, how, expr, extra in bindings:
-                if name in table and _round == 0 and how == 'param':
-                    continue
+                if how == 'element' and not any(
+                        term[0] == 'cont' for term in table.get(name, EMPTY)):
+                    continue  # not a local container
                 ts = self._binding_type(how, expr, extra, frame)
                 if ts is None:
                     continue
-                prev = table.get(name, EMPTY)
+                prev = new.get(name, EMPTY)
                 merged = (prev | ts)
                 if len(merged) > 1:
                     merged = merged - UNKNOWN or UNKNOWN
-                table[name] = merged
+                new[name] = merged
+            # a container filled element by element: drop the unknown-element literal
+            for name, ts in list(new.items()):
+                conts = [term for term in ts if term[0] == 'cont']
+                if len(conts) > 1:
+                    known = [term for term in conts if term[2] != UNKNOWN]
+                    if known and len(known) < len(conts):
+                        new[name] = frozenset(term for term in ts
+                                              if term[0] != 'cont' or term in known)
+            if new == table:
+                break
+            table.clear()
+            table.update(new)
         return table
 
     def _is_metaclass(self, cls: Optional[ClassInfo]) -> bool:
@@ -301,6 +317,8 @@ class TypeEngine:
             return self._with_as(self.expr_type(expr, frame))
         if how == 'awith':
             return self._awith_as(self.expr_type(expr, frame))
+        if how == 'element':
+            return frozenset({('cont', 'list', self.expr_type(expr, frame))})
         if how == 'except':
             if expr is None:
                 return frozenset({('ext', 'BaseException')})
@@ -1194,5 +1212,10 @@ def _collect_local_bindings(fnode) -> list:
             bind_target(node.target, 'iter', node.iter)
         elif isinstance(node, ast.NamedExpr):
             bind_target(node.target, 'assign', node.value)
+        elif isinstance(node, ast.Call) and isinstance(node.func, ast.Attribute) and \
+                isinstance(node.func.value, ast.Name) and len(node.args) >= 1 and \
+                node.func.attr in ('append', 'add', 'appendleft', 'insert'):
+            # a local container filled element by element
+            result.append((node.func.value.id, 'element', node.args[-1], None))
     # filter None-valued
     return [(n, h, e, x) for (n, h, e, x) in result if not (h == 'assign' and e is None)]
